@@ -78,11 +78,13 @@ extern "C" int timers()
 // ------------------------------------------------------------------------------------------------ clients, readiness, removal with pending events
 struct ClientCB : public Server::Client::ICallback
 {
-  int id; unsigned reads, writes, closed; bool removed; unsigned action; Server::Client* self; ClientCB* other; bool failRead;
+  int id; unsigned reads, writes, closed; bool removed; bool suspended; unsigned action; Server::Client* self; ClientCB* other; bool failRead;
   virtual void onRead()
   {
     vf_assert(!removed, "a removed client never receives another callback");
+    vf_assert(!suspended, "a socket is dispatched only with event kinds it is registered for (suspended: no read, even if the event was already pending)");
     ++reads;
+    if(action == 3 && other && !other->removed) { other->suspended = true; other->self->suspend(); }           // narrow the other client's registration while its event may be pending
     if(action == 1 && other && !other->removed) { other->removed = true; g_p->remove(*(ClientImpl*)other->self); }       // remove the other client (its event may be pending)
     else if(action == 2) { removed = true; g_p->remove(*(ClientImpl*)self); return; }                                   // remove itself
     byte buf[4]; usize n = 0;
@@ -100,8 +102,8 @@ extern "C" int clients()
     Socket peers[2]; ClientCB cb[2];
     for(unsigned i = 0; i < 2; ++i)
     {
-      cb[i].id = i; cb[i].reads = cb[i].writes = cb[i].closed = 0; cb[i].removed = false; cb[i].failRead = false; cb[i].other = &cb[1 - i];
-      cb[i].action = vf_pick(3);
+      cb[i].id = i; cb[i].reads = cb[i].writes = cb[i].closed = 0; cb[i].removed = false; cb[i].suspended = false; cb[i].failRead = false; cb[i].other = &cb[1 - i];
+      cb[i].action = vf_pick(4);
       cb[i].self = p.pair(cb[i], peers[i]);
       vf_assert(cb[i].self != 0, "pair");
     }
@@ -117,7 +119,7 @@ extern "C" int clients()
       vf_assert(cb[i].writes == 0, "no write event without write interest");
     }
     if(cb[0].action == 0 && cb[1].action == 0 && scenario == 0) { vf_assert(cb[0].reads >= 1 && cb[1].reads >= 1, "every readable registered socket is dispatched"); }
-    if(scenario == 1 && !cb[1].removed) vf_assert(false, "a closed peer is noticed (onRead -> read fails -> onClosed)");
+    if(scenario == 1 && !cb[1].removed && !cb[1].suspended) vf_assert(false, "a closed peer is noticed (onRead -> read fails -> onClosed)");
     vf_assert(p._closingClients.isEmpty(), "no closing client left behind");
   }
   vf_reach("end");
